@@ -173,3 +173,24 @@ PROPS["C18"] = dict(
     technique="Lean 4: stored view has empty link lists and no tag-42 item; recovery / no-key / other-key behaviour from the ideal secretbox laws; raw-byte scan of real blocks",
     level_text="Kernel-checked: for an entry with at least one link under a link key the stored value has next = refs = [] and its CBOR contains no tag-42 item (tag 42 appears exactly for clear-text links); a same-key reader recovers identical lists, a reader without a key gets no links, a different key is an error, and verification after read gives the same verdict as at creation. Confidentiality of secretbox is assumed; on real blocks the harness searches the binary, base32 and base58 forms of every predecessor/reference CID in the raw bytes and checks Links() is empty, reads with same/no/other key, Verify and Join after read.",
     level_note=CODEC_NOTE + " Caveat proved (v1_links_in_clear): a V=1 entry has no encrypted-links fields and keeps its links in clear; Append always writes V=2.", design_ref="§8 C18", rule=CODEC_RULE)
+
+CONC_NOTE = ("Trusted: Lean kernel; Go's sync.RWMutex semantics as modelled (a pending writer blocks new readers; over-approximated hand-off); critical sections as atomic steps — justified by rw_exclusion plus the lock discipline extracted from the Go AST on every run (Generated/Facts.lean, closed by decide); "
+             "the Go memory model, races inside dependencies and the internal OrderedMap lock are not modelled: a free-running stress under the Go race detector is part of the check; extractor, harness (controlled scheduling through verif-tag hooks), driver.")
+CONC_STREAM = dict(name="conc", quick=["-n", "250"], thorough=["-n", "3000", "-thorough"], shards_quick=4, shards_thorough=14)
+CONC_RULE = ("conc stream: each operation in its own goroutine parked at every hook point; a controller releases one goroutine at a time in PRNG order mirroring the lock table (watchdog = deadlock); scenarios Append||Append||readers, Join(dest<-src)||Append(src), cross joins A<-B||B<-A, 3-cycle, each after a random sequential prelude; thorough adds exhaustive schedules with <= 3 preemptions of four small scenarios; "
+             "distinct = distinct (scenario, schedule); non-trivial = at least one preemption")
+PROPS["C13"] = dict(
+    title="A log shared between goroutines behaves atomically",
+    streams=[CONC_STREAM], diff_fields=r".*", spec_ids=["C13"],
+    extra_targets=["Props.C13Facts"],
+    race_stress=dict(stream="conc-stress", ms_quick=4000, ms_thorough=60000),
+    technique="Lean 4: RW-lock world model with theorems over all schedules (exclusion, race freedom under the lock discipline, deadlock freedom, serialisation, append chain) + lock facts regenerated from the Go AST and closed by decide; controlled-schedule differential run and race-detector stress",
+    level_text="Kernel-checked for any number of threads and logs and EVERY schedule: a writer excludes everyone else; under the lock discipline no two conflicting accesses are simultaneously enabled; some thread can always step (no deadlock) and every call makes a bounded number of moves; each log's state is the replay of sequential lock sessions, so every read observes a state satisfying any invariant the sequential steps preserve; an append after another append has it in its causal past and appears exactly once. The discipline itself (every access to a mutable field under the lock, no lock acquired while holding one) is extracted from /repo's Go AST on every run and closed by decide. Data races proper are a runtime notion: checked by a free-running -race stress.",
+    level_note=CONC_NOTE, design_ref="§8 C13", rule=CONC_RULE)
+PROPS["C14"] = dict(
+    title="Merging from a live log sees a consistent snapshot and cannot deadlock",
+    streams=[CONC_STREAM], diff_fields=r".*", spec_ids=["C14"],
+    extra_targets=["Props.C13Facts"],
+    technique="Lean 4: position tracking through the transcribed Join program over all schedules (join_reads_ordered, join_snapshot, join_includes_snapshot, join_heads_are_entries, cross_join_deadlock_free); controlled schedules with park points between the two reads of the source",
+    level_text="Kernel-checked over all schedules: a merge uses the source's heads as of instant a and its entries as of instant b >= a; if the source only grows, the heads read are entries of what was read, the merge adds exactly entries of the source's state at instant a, the result lies between dest and dest U that snapshot and contains all of it, and every head of the result is one of its entries; any pattern of concurrent merges (cross, cyclic) never deadlocks and a merge takes a bounded number of moves. Counter-schedules for the pre-repair order are kept as examples. Tied to the code by parking Join between its reads and interleaving appends/merges on the source, and by the extracted no-lock-while-holding fact.",
+    level_note=CONC_NOTE, design_ref="§8 C14", rule=CONC_RULE)
